@@ -187,7 +187,7 @@ def gen_signal(rng, min_len=1, max_len=80):
         peak = max(head) + 3.0 if rng.random() < 0.5 else min(head) - 3.0
         tail = [float(rng.randint(-5, 5)) for _ in range(rng.randint(3, 12))]
         return head + [peak] * rng.choice([17000, 33000, 40000]) + tail
-    if max_len == 80 and rng.random() < 0.0008:
+    if max_len == 80 and rng.random() < 0.0015:
         # a ring-down of thousands of half waves (every one of them stays open), then a swing beyond all of them
         # and a few more samples: thousands of nested loops close in one call, far down the residual stack
         n_half = rng.choice([4100, 4500, 6000, 9000])
@@ -199,7 +199,9 @@ def gen_signal(rng, min_len=1, max_len=80):
             sig.append(sgn * a * 0.5)
             sgn = -sgn
         if not grow:
-            sig += [sgn * (n_half + 2) * 0.5, 0.0, 1.0, -1.0][:rng.randint(1, 4)]
+            # the swing, then either a few samples or another short ring-down (open loops again on top of the swing)
+            tail = [0.0, 1.0, -1.0] if rng.random() < 0.4 else [-sgn * 3.0, sgn * 2.5, -sgn * 2.0, sgn * 1.5, -sgn * 1.0, sgn * 0.5]
+            sig += [sgn * (n_half + 2) * 0.5] + tail[:rng.randint(0, len(tail))]
         else:
             sig = [-sig[-1] * 1.01] + sig + [0.25, -0.25][:rng.randint(0, 2)]
         return sig
@@ -340,9 +342,11 @@ def gen_cuts(rng, sig):
                 break
             cuts.append(pos)
         return cuts
-    if n > 5000:
+    if n > 4000:
         # a really long recording: a handful of big blocks, some borders next to powers of two
         cuts = {rng.randint(1, n - 1) for _ in range(rng.randint(1, 4))}
+        if rng.random() < 0.6:
+            cuts.add(n - rng.randint(5, 400))           # a border shortly before the end of the recording
         if rng.random() < 0.5:
             cuts |= set(range(4096, n, 4096))           # regular big blocks as well
         for base in (1 << 15, 1 << 16, 1 << 17):
@@ -718,6 +722,20 @@ def _execute(prop, trace):
             check_c01(out, st, rp, r, sig[:b], o, flush)
         else:
             check_c02_accounting(out, st, rp, r, sig[:b], o)
+            if last and not st["dead"] and rp["det"] in ("fp", "tp") and "ifrom" in o:
+                # the delivery schedule may not change WHICH loops are closed: the chunked replica against the definition
+                cyc, res = ref.four_point(ref.turning_points(sig))
+                want_c = [(a_, b_, float(ia), float(ib)) for a_, b_, ia, ib in cyc]
+                got_c = list(zip(o["from"], o["to"], o["ifrom"], o["ito"]))
+                gres = list(zip(o["ridx"], o["res"]))
+                wres = [(float(i_), v_) for i_, v_ in res]
+                bad = (got_c != want_c) if rp["det"] == "fp" else (Counter(got_c) != Counter(want_c))
+                if bad or gres != wres:
+                    out.violate("I3-specification", rp["det"] + ":chunked",
+                                {"replica": r, "chunks": [len(c) for c in st["delivered"]][:40], "cycles_got": len(got_c), "cycles_want": len(want_c),
+                                 "got_residual": gres[:12], "want_residual": wres[:12]})
+                    st["dead"] = True
+                    continue
         if last:
             ncyc = len(o["from"])
             nchunks = len(st["bounds"]) - 1
